@@ -81,6 +81,12 @@ def make_x0proj_cfg(rng):
     up = cfg["user_params"]
     up["dykstra.d_tol"] = float(gen.pick(rng, [1e-8, 1e-10, 1e-12, 1e-14]))
     up["dykstra.max_iters"] = int(gen.pick(rng, [100, 1000, 5000]))
+    if r() < 0.35:
+        # defaults that depend on the noise flag must not include the projection tolerance (documented default: 1e-10 always)
+        cfg["args"]["objfun_has_noise"] = True
+        if r() < 0.6:
+            up.pop("dykstra.d_tol", None)
+            up.pop("dykstra.max_iters", None)
     cfg["_variant"] = "x0proj/" + kind
     return cfg
 
@@ -154,6 +160,9 @@ def make_cfg(seed, i):
                        maxfun=int(gen.pick(rng, [12, 20, 30])))
     if cfg.pop("_scaling_ignored", False):
         cfg["args"]["scaling_within_bounds"] = True
+    if r() < 0.15:
+        cfg["args"]["objfun_has_noise"] = True
+        cfg["args"]["maxfun"] = min(int(cfg["args"]["maxfun"]), 20)
     if r() < 0.6:
         up["dykstra.d_tol"] = float(gen.pick(rng, [1e-8, 1e-10, 1e-12]))
     if r() < 0.5:
